@@ -188,6 +188,13 @@ class Project:
             os.utime(tmp, (t, t))
             os.replace(tmp, path)
             m.user_write(op[1], op[2])
+        elif kind == "ulinkdir":
+            # the user makes the name a symbolic link to one of their directories
+            path = self.p / op[1]
+            if path.is_symlink() or path.exists():
+                os.unlink(path)
+            os.symlink(op[2], path)
+            m.user_write(op[1], "L:" + op[2])
         elif kind == "ureplace":
             self._write(op[1], op[2], replace=True)
             m.user_write(op[1], op[2])
